@@ -129,7 +129,7 @@ pub open spec fn pow2i(n: nat) -> int { vstd::arithmetic::power2::pow2(n) as int
 pub proof fn lemma_pow2_values()
     ensures pow2i(0) == 1, pow2i(1) == 2, pow2i(2) == 4, pow2i(14) == 0x4000, pow2i(32) == 0x1_0000_0000,
             pow2i(33) == 0x2_0000_0000, pow2i(48) == 0x1_0000_0000_0000, pow2i(63) == 0x8000_0000_0000_0000,
-            pow2i(64) == 0x1_0000_0000_0000_0000, pow2i(5) == 32, pow2i(8) == 256, pow2i(16) == 0x10000,
+            pow2i(64) == 0x1_0000_0000_0000_0000, pow2i(5) == 32, pow2i(3) == 8, pow2i(4) == 16, pow2i(8) == 256, pow2i(16) == 0x10000,
 {
     vstd::arithmetic::power2::lemma2_to64();
     vstd::arithmetic::power2::lemma2_to64_rest();
